@@ -263,6 +263,18 @@ def r_numbering(repo, rep, R='R7.3'):
                 elt_names = {n.id for n in ast.walk(elt) if isinstance(n, ast.Name)}
                 inner_over = [q for q in inner if any(isinstance(n, ast.Name) and n.id in elt_names for n in ast.walk(q.iter))]
                 rep.check(bool(inner_over), R, w, key + ':inner', 'the n-best trees of a sentence are the inner loop', 'no inner loop over the sentence\'s trees')
+                # every tree of the list is written: nothing leaves the loop over the trees (or the one over the sentences) early
+                for q in inner_over + [l]:
+                    skips = []
+                    for n in ast.walk(q):
+                        if isinstance(n, (ast.Continue, ast.Break, ast.Return)) and enclosing_function(n) is fn:
+                            near = next((p_ for p_ in _parents_until(n, fn) if isinstance(p_, (ast.For, ast.While))), None)
+                            if near is q or (isinstance(n, ast.Return) and near is not None):
+                                skips.append(n)
+                    rep.check(not skips, R, '%s:%s %s' % (rel, skips[0].lineno if skips else q.lineno, fn.name), key + ':every-tree',
+                              'the loop over %s writes every one of them (no continue / break / return inside)' % ('the trees of a sentence' if q is not l else 'the sentences'),
+                              'the loop over %s is left early (%s at line %s): a parse result that every other format writes has no record here'
+                              % ('the trees of a sentence' if q is not l else 'the sentences', type(skips[0]).__name__.lower() if skips else '', skips[0].lineno if skips else 0))
                 # the sentence number written inside the inner loop is the outer index
                 uses = []
                 for q in inner_over:
